@@ -675,6 +675,13 @@ def load_plugins_from_config(
             fnam = os.path.basename(plugin_path)
             module_name = fnam[:-3]
             sys.path.insert(0, plugin_dir)
+            # An earlier build in this process may have loaded a plugin with the same
+            # file name from a different directory.
+            loaded_file = getattr(sys.modules.get(module_name), "__file__", None)
+            if loaded_file is not None and os.path.abspath(loaded_file) != os.path.abspath(
+                plugin_path
+            ):
+                del sys.modules[module_name]
         elif re.search(r"[\\/]", plugin_path):
             fnam = os.path.basename(plugin_path)
             plugin_error(f'Plugin "{fnam}" does not have a .py extension')
